@@ -50,7 +50,7 @@ Definition th_ok (ids tso cki ckt : N) (mu : bool) (th : thread) : Prop :=
                     (k = KId -> f + n - 1 <= id)
   | PSave f id ts => mu = true /\ cki <= id /\ id <= ids /\ ckt <= ts /\ ts <= tso /\
                      f + n - 1 <= match k with KId => id | KTs => ts end
-  | PDone _ => True
+  | PDone _ | PFail _ => True
   end.
 
 Record Inv (g : gstate) : Prop := {
@@ -148,7 +148,10 @@ Proof.
     eapply Hm; eauto.
 Qed.
 
-Lemma Inv_step g l g' : Inv g -> tstep true g l = Some g' -> Inv g'.
+Section Failing.
+Variable failing : nat -> bool.
+
+Lemma Inv_step g l g' : Inv g -> tstep true failing g l = Some g' -> Inv g'.
 Proof.
   intros HI Hs. pose proof HI as [[Hc1 Hc2] [Hm1 Hm2] [Hch1 Hch2] Hr [Ho1 Ho2] Ht Hmx].
   destruct l as [t|a b reqs]; cbn in Hs.
@@ -159,7 +162,7 @@ Proof.
   destruct (nth_error (g_threads g) t) as [th|] eqn:Et; [|discriminate].
   pose proof (Ht _ _ Et) as Hth. unfold thread_step in Hs. unfold th_ok in Hth.
   pose proof (eff_count_pos (th_req th)) as Hn1.
-  destruct (th_pc th) as [|f|f|f id|f id ts|f] eqn:Epc.
+  destruct (th_pc th) as [|f|f|f id|f id ts|f|f] eqn:Epc.
   - (* reserve *)
     destruct (r_kind (th_req th)) eqn:Ek.
     + destruct (max_u64 - 1 <? g_ids g + eff_count (th_req th)) eqn:Eg; [discriminate|].
@@ -224,7 +227,21 @@ Proof.
       unfold th_ok. cbn. repeat split; auto; try lia.
       destruct (r_kind (th_req th)); [now apply H3|exact Hb].
     + unfold set_thread. eapply mutex_update; eauto. intros _. left. now rewrite Epc.
-  - (* save *)
+  - (* save fails *)
+    destruct (failing t) eqn:Ef.
+    { inversion Hs; subst; clear Hs. destruct Hth as (Hmu & H1 & H2 & H3 & H4 & H5).
+      constructor; cbn.
+      + split; assumption.
+      + split; assumption.
+      + split; assumption.
+      + exact Hr.
+      + split; assumption.
+      + intros u thu Hn. unfold set_thread in Hn. set_nth_cases t u Hn Et; [exact I|].
+        eapply th_ok_noncrit; [|eauto].
+        destruct (critical (th_pc thu)) eqn:C; [|reflexivity]. exfalso. apply Hne.
+        eapply Hmx; eauto. now rewrite Epc.
+      + unfold set_thread. eapply mutex_update; eauto. discriminate. }
+    (* save *)
     inversion Hs; subst; clear Hs. destruct Hth as (Hmu & H1 & H2 & H3 & H4 & H5).
     constructor; cbn.
     + split; assumption.
@@ -239,17 +256,18 @@ Proof.
       eapply Hmx; eauto. now rewrite Epc.
     + unfold set_thread. eapply mutex_update; eauto. discriminate.
   - discriminate.
+  - discriminate.
 Qed.
 
 Lemma Inv_reachable a b reqs g :
-  a <= max_u64 -> b <= max_u64 -> reachable (tstep true) (init a b reqs) g -> Inv g.
+  a <= max_u64 -> b <= max_u64 -> reachable (tstep true failing) (init a b reqs) g -> Inv g.
 Proof.
   intros Ha Hb. apply inv_reachable; [now apply Inv_init | intros; eapply Inv_step; eauto].
 Qed.
 
 (** * the exported statements *)
 Theorem pd_unique_increasing a b reqs g k :
-  a <= max_u64 -> b <= max_u64 -> reachable (tstep true) (init a b reqs) g ->
+  a <= max_u64 -> b <= max_u64 -> reachable (tstep true failing) (init a b reqs) g ->
   chain (base g k) (counter g k) (rlog g k) /\
   forall l1 e1 l2 e2 l3, rlog g k = l1 ++ e1 :: l2 ++ e2 :: l3 ->
     1 <= snd e1 /\ 1 <= snd e2 /\ fst e2 + snd e2 - 1 < fst e1.
@@ -265,7 +283,7 @@ Proof.
 Qed.
 
 Theorem pd_checkpoint_covers a b reqs g :
-  a <= max_u64 -> b <= max_u64 -> reachable (tstep true) (init a b reqs) g ->
+  a <= max_u64 -> b <= max_u64 -> reachable (tstep true failing) (init a b reqs) g ->
   covered (g_ck_id g) (g_ck_ts g) (g_resp g ++ g_resp_old g).
 Proof.
   intros Ha Hb Hr. pose proof (Inv_reachable _ _ _ _ Ha Hb Hr) as [_ _ _ H1 [H2 _] _ _].
@@ -274,7 +292,7 @@ Qed.
 
 (** every response of an earlier incarnation lies below every reservation of the current one *)
 Theorem pd_no_reuse_after_restart a b reqs g :
-  a <= max_u64 -> b <= max_u64 -> reachable (tstep true) (init a b reqs) g ->
+  a <= max_u64 -> b <= max_u64 -> reachable (tstep true failing) (init a b reqs) g ->
   forall r f c, In r (g_resp_old g) -> In (f, c) (rlog g (iv_kind r)) -> iv_end r < f.
 Proof.
   intros Ha Hb Hr r f c Hin Hlog.
@@ -286,16 +304,18 @@ Qed.
 
 (** restarting at any reachable state resumes strictly above everything responded *)
 Theorem pd_restart_above a b reqs g a2 b2 reqs2 g2 :
-  a <= max_u64 -> b <= max_u64 -> reachable (tstep true) (init a b reqs) g ->
-  tstep true g (Crash a2 b2 reqs2) = Some g2 ->
+  a <= max_u64 -> b <= max_u64 -> reachable (tstep true failing) (init a b reqs) g ->
+  tstep true failing g (Crash a2 b2 reqs2) = Some g2 ->
   forall r, In r (g_resp g ++ g_resp_old g) -> iv_end r <= counter g2 (iv_kind r).
 Proof.
   intros Ha Hb Hr Hs r Hin.
-  assert (Hr2 : reachable (tstep true) (init a b reqs) g2) by (eapply reach_step; eauto).
+  assert (Hr2 : reachable (tstep true failing) (init a b reqs) g2) by (eapply reach_step; eauto).
   pose proof (Inv_reachable _ _ _ _ Ha Hb Hr2) as [[Hc1 Hc2] _ _ _ [H2 _] _ _].
   cbn in Hs. destruct ((max_u64 <? a2) || (max_u64 <? b2)); [discriminate|]. inversion Hs; subst.
   cbn in *. specialize (H2 r Hin). destruct (iv_kind r); cbn; lia.
 Qed.
+
+End Failing.
 
 (** * the code before the repair: an older pair of counters written last (F23) *)
 Definition f23_reqs : list req := [ {| r_kind := KTs; r_count := 1 |}; {| r_kind := KTs; r_count := 1 |} ].
@@ -304,7 +324,7 @@ Definition f23_schedule : list label :=
 
 Theorem pd_unfixed_refuted :
   exists a b reqs sched,
-    let g := run (tstep false) (init a b reqs) sched in
+    let g := run (tstep false (fun _ => false)) (init a b reqs) sched in
     exists r f c, In r (g_resp_old g) /\ In (f, c) (rlog g (iv_kind r)) /\ f <= iv_end r.
 Proof.
   exists 1, 1, f23_reqs, f23_schedule. cbv zeta.
@@ -313,7 +333,7 @@ Proof.
 Qed.
 
 Example pd_fixed_on_f23 :
-  let g := run (tstep true) (init 1 1 f23_reqs) f23_schedule in
+  let g := run (tstep true (fun _ => false)) (init 1 1 f23_reqs) f23_schedule in
   g_resp_old g = [] /\ g_log_ts g = [(1, 1)].
 Proof. vm_compute. split; reflexivity. Qed.
 
